@@ -356,7 +356,88 @@ fn run_wordx2<W: Write>(group: &str, thorough: bool, seed: u64, shard: u64, nsha
     writeln!(out, "scan {} {} => ok", group, scanned).unwrap();
 }
 
+/// EVERY word value x EVERY count 0..255 x CF for the seven shift / rotate functions, filtered by n single-bit steps
+/// (value, CF, SF/ZF/PF for shifts, OF when the count is 1; bits the manual leaves undefined are not in the filter)
+fn run_wordx_shift<W: Write>(thorough: bool, seed: u64, shard: u64, nshards: u64, out: &mut W) {
+    let stride = if thorough { 1u32 } else { 16u32 };
+    let phase = if thorough { 0u32 } else { (seed % 16) as u32 };
+    let mut scanned: u64 = 0;
+    let mut emitted = 0u64;
+    let mut vm = VM::new();
+    for name in ["sal", "sar", "shr", "rol", "ror", "rcl", "rcr"].iter() {
+        let f = b16(name).unwrap();
+        let is_shift = matches!(*name, "sal" | "sar" | "shr");
+        for fl in [0x0000u16, 0xFFFF].iter() {
+            let mut a = (shard as u32) * stride + phase;
+            while a <= 0xFFFF {
+                for cnt in 0..=255u32 {
+                    vm.arch.flag = *fl;
+                    let r = catch_unwind(AssertUnwindSafe(|| f(&mut vm, a as u16, cnt as u16)));
+                    // reference: cnt single-bit steps
+                    let mut v = a as u16;
+                    let mut cf = fl & 1 != 0;
+                    for _ in 0..cnt {
+                        let (msb, lsb) = (v & 0x8000 != 0, v & 1 != 0);
+                        match *name {
+                            "sal" => { cf = msb; v <<= 1; }
+                            "shr" => { cf = lsb; v >>= 1; }
+                            "sar" => { cf = lsb; v = (v >> 1) | (v & 0x8000); }
+                            "rol" => { cf = msb; v = v.rotate_left(1); }
+                            "ror" => { cf = lsb; v = v.rotate_right(1); }
+                            "rcl" => { let o = cf; cf = msb; v = (v << 1) | (o as u16); }
+                            _ => { let o = cf; cf = lsb; v = (v >> 1) | ((o as u16) << 15); }
+                        }
+                    }
+                    let bad = match r {
+                        Ok(res) => {
+                            let g = vm.arch.flag;
+                            let mut b = res != v;
+                            if cnt == 0 {
+                                b = b || g != *fl;
+                            } else {
+                                b = b || ((g & 1) != 0) != cf;
+                                if is_shift {
+                                    b = b || ((g & 0x40) != 0) != (v == 0) || ((g & 0x80) != 0) != (v & 0x8000 != 0)
+                                        || ((g & 4) != 0) != ((v as u8).count_ones() % 2 == 0);
+                                } else {
+                                    b = b || (g & 0x00D4) != (fl & 0x00D4);
+                                }
+                                if cnt == 1 {
+                                    let msb = v & 0x8000 != 0;
+                                    let of = match *name {
+                                        "sal" | "rol" | "rcl" => msb ^ cf,
+                                        "shr" => (a as u16) & 0x8000 != 0,
+                                        "sar" => false,
+                                        _ => msb ^ (v & 0x4000 != 0),
+                                    };
+                                    b = b || ((g & 0x800) != 0) != of;
+                                }
+                                // the non-status bits never change
+                                b = b || (g & 0xF72A) != (fl & 0xF72A);
+                            }
+                            b
+                        }
+                        Err(_) => { vm = VM::new(); true }
+                    };
+                    if bad && emitted < 2000 {
+                        let req = format!("b16 {} {} {} {}", name, fl, a, cnt);
+                        let ans = answer(&req);
+                        writeln!(out, "{} => {}", req, ans).unwrap();
+                        emitted += 1;
+                    }
+                    scanned += 1;
+                }
+                a += (nshards as u32) * stride;
+            }
+        }
+    }
+    writeln!(out, "scan wordx_shift {} => ok", scanned).unwrap();
+}
+
 pub fn run<W: Write>(group: &str, thorough: bool, seed: u64, shard: u64, nshards: u64, out: &mut W) {
+    if group == "wordx_shift" {
+        return run_wordx_shift(thorough, seed, shard, nshards, out);
+    }
     if group == "wordx_logic" || group == "wordx_mul" {
         return run_wordx2(group, thorough, seed, shard, nshards, out);
     }
